@@ -600,6 +600,36 @@ pub fn burst_strategy() -> impl Strategy<Value = DropCase> {
         })
 }
 
+/// sessions several times longer than the connection's read buffer (6 KiB), of frames of every size, arriving in many small
+/// pieces with a suspension between them; the read future is dropped at every suspension point it reaches
+pub fn long_drop_strategy() -> impl Strategy<Value = DropCase> {
+    (
+        any::<bool>(),
+        proptest::collection::vec(frame_strategy(1, 1), 120..420),
+        proptest::collection::vec(any::<prop::sample::Index>(), 40..400),
+        proptest::collection::vec(prop_oneof![3 => (1usize..5).prop_map(WriteStep::Accept), 3 => Just(WriteStep::Pending)], 0..12),
+        proptest::collection::btree_set(0usize..600, 0..4),
+        any::<bool>(),
+    )
+        .prop_map(|(compressed, frames, cuts, writes, user_writes, drop_all)| {
+            let mode = if compressed { Mode::Compressed } else { Mode::Uncompressed };
+            let stream: Vec<u8> = frames.iter().flat_map(|f| frame_bytes(f, &mode)).collect();
+            let mut at: Vec<usize> = cuts.iter().map(|ix| ix.index(stream.len() + 1)).collect();
+            at.push(0);
+            at.push(stream.len());
+            at.sort();
+            at.dedup();
+            let mut steps: Vec<ReadStep> = vec![];
+            for w in at.windows(2) {
+                steps.push(ReadStep::Data(stream[w[0]..w[1]].to_vec()));
+                steps.push(ReadStep::Pending);
+            }
+            let session = SessionCase { compressed, verify: false, steps, writes, label: "long".into() };
+            let drops = if drop_all { (1..=6000usize).collect() } else { (1..=6000usize).filter(|k| k % 3 != 0).collect() };
+            DropCase { session, drops, user_writes: user_writes.clone(), user_none: user_writes.len() % 2 == 1 }
+        })
+}
+
 pub fn parts() -> Vec<Box<dyn DynPart>> {
     vec![Box::new(Generated), Box::new(SmallExhaustive), Box::new(RealAdaptors)]
 }
@@ -611,7 +641,7 @@ pub fn run(run: &mut Run) {
         Oracle: the delivered results equal those of the same script without drops (which itself must equal the C05 model); the \
         outgoing byte stream consists of whole frames, exactly one TINY_NONE per delivered keep-alive, application frames intact and in \
         order. Complete: every subset of the first 13 poll indices x every subset of application writes after the first 4 read attempts, for three small scripts x 2 modes; generated: sessions of all packet \
-        kinds with many keep-alives and 0..12 drop points, and bursts of 130..600 small frames arriving in one to three reads with the read future dropped at every suspension point it reaches. A third part drives the real tokio UDP and WebSocket adaptors on loopback: before / after each datagram or message is sent a read is polled to Pending and dropped (also with a partial frame buffered), and the delivered packets must equal the model's. Non-trivial = at least one drop actually happened while the future was Pending."
+        kinds with many keep-alives and 0..12 drop points, bursts of 130..600 small frames arriving in one to three reads with the read future dropped at every suspension point it reaches, and sessions of several read-buffer lengths (120..420 frames of every size, 40..400 pieces) dropped at every, or at two in three, suspension points. A third part drives the real tokio UDP and WebSocket adaptors on loopback: before / after each datagram or message is sent a read is polled to Pending and dropped (also with a partial frame buffered), and the delivered packets must equal the model's. Non-trivial = at least one drop actually happened while the future was Pending."
         .into();
     run.assumptions = vec![
         "dropping the future between polls is the only cancellation mechanism (what select!/timeout do)".into(),
@@ -630,6 +660,9 @@ pub fn run(run: &mut Run) {
     // it ever reaches (a select! loop whose other branch is always ready)
     let n = run.budget(1_500, 100_000);
     run.prop(&Generated, burst_strategy(), n);
+    // sessions of several read-buffer lengths, in small pieces, dropped at every suspension point
+    let n = run.budget(600, 40_000);
+    run.prop(&Generated, long_drop_strategy(), n);
     // the real adaptors
     run.max_shrink_iters = 60;
     let frames = proptest::collection::vec(frame_strategy(1, 0), 1..12);
